@@ -57,11 +57,15 @@ theorem stopsM_trimLeft : StopsM trimLeftM := by
 
 theorem stopsM_trimRight : StopsM trimRightM := fun _ => .ret _
 
+theorem stopsM_writeVerbatim (b : Bytes) : StopsM (writeVerbatimM b) := by
+  unfold writeVerbatimM
+  exact stopsM_bind (stopsM_write _) (fun _ => stopsM_bind (stopsM_write b) (fun _ => stopsM_flush))
+
 theorem stopsM_writeAll : ∀ cs, StopsM (writeAllM cs)
   | [] => stopsM_pure ()
   | c :: cs => by
     unfold writeAllM
-    exact stopsM_bind (stopsM_write c) (fun _ => stopsM_writeAll cs)
+    exact stopsM_bind (stopsM_writeVerbatim c) (fun _ => stopsM_writeAll cs)
 
 /-- capture and include run their inner program against an in-memory writer: no call reaches
     the caller's writer from inside them -/
